@@ -34,6 +34,14 @@ func serializeRun(fs *h.ForkSession, irs []h.InvokeResult) string {
 			fmt.Fprintf(&b, "host %s addr=%s key=%x value=%x hash=%x\n", e.K, e.Addr.Hex(), e.CtxKey, e.Bytes, e.Key)
 		}
 	}
+	serializeQueries(fs, &b)
+	return b.String()
+}
+
+// serializeQueries renders the answer of every read-only query a consumer of the tracer can make (call-tree lookups
+// and lists, every registered key by name path, its list-valued queries). It only reads: asking in the middle of an
+// execution must not change any later answer.
+func serializeQueries(fs *h.ForkSession, b *strings.Builder) {
 	tr := fs.EVM.Tracer()
 	ct := tr.CallTree()
 	for i := uint64(0); ; i++ {
@@ -45,12 +53,12 @@ func serializeRun(fs *h.ForkSession, irs []h.InvokeResult) string {
 		if c.To != nil {
 			to = c.To.Hex()
 		}
-		fmt.Fprintf(&b, "call %d parent=%d %s->%s value=%v gas=%v data=%x ret=%x left=%d err=%q children=%v\n", i, c.ParentIndex(), c.From.Hex(), to, c.Value, c.Gas, c.Data, c.Ret, c.RemainingGas, h.ErrClass(c.Err), c.ChildrenIndices())
+		fmt.Fprintf(b, "call %d parent=%d %s->%s value=%v gas=%v data=%x ret=%x left=%d err=%q children=%v\n", i, c.ParentIndex(), c.From.Hex(), to, c.Value, c.Gas, c.Data, c.Ret, c.RemainingGas, h.ErrClass(c.Err), c.ChildrenIndices())
 		var kids []uint64
 		for _, k := range ct.ChildrenOf(i) {
 			kids = append(kids, k.Index)
 		}
-		fmt.Fprintf(&b, "  childrenOf=%v\n", kids)
+		fmt.Fprintf(b, "  childrenOf=%v\n", kids)
 	}
 	// journal queries: walk every registered key path (paths enumerated from the sorted dump)
 	d := tr.VerifDump()
@@ -61,7 +69,7 @@ func serializeRun(fs *h.ForkSession, irs []h.InvokeResult) string {
 	}
 	sort.Slice(accts, func(i, j int) bool { return bytes.Compare(accts[i][:], accts[j][:]) < 0 })
 	for _, a := range accts {
-		fmt.Fprintf(&b, "account %s balance=%s\n", a.Hex(), canonRealBal(sc.Balance(a)))
+		fmt.Fprintf(b, "account %s balance=%s\n", a.Hex(), canonRealBal(sc.Balance(a)))
 		var walk func(id int, path []string)
 		walk = func(id int, path []string) {
 			n := d.Nodes[id]
@@ -73,24 +81,23 @@ func serializeRun(fs *h.ForkSession, irs []h.InvokeResult) string {
 				}
 				key := sc.FindKeyIndices(a, p[0], idx...)
 				if key == nil {
-					fmt.Fprintf(&b, " key %q unreachable by name\n", p)
+					fmt.Fprintf(b, " key %q unreachable by name\n", p)
 					continue
 				}
-				fmt.Fprintf(&b, " key %q slot=%v off=%d type=%d changes=%s\n", p, key.Slot(), key.Offset(), key.NodeType(), canonReal(key.Changes()))
+				fmt.Fprintf(b, " key %q slot=%v off=%d type=%d changes=%s\n", p, key.Slot(), key.Offset(), key.NodeType(), canonReal(key.Changes()))
 				// ordered list results
-				fmt.Fprintf(&b, "  ChildrenIndices=%q\n", key.ChildrenIndices())
+				fmt.Fprintf(b, "  ChildrenIndices=%q\n", key.ChildrenIndices())
 				var ch []string
 				for _, c := range key.Children() {
 					ch = append(ch, fmt.Sprintf("%v/%d", c.Slot(), c.Offset()))
 				}
-				fmt.Fprintf(&b, "  Children=%v\n", ch)
-				fmt.Fprintf(&b, "  IndicesOfChanges=%q\n", sc.IndicesOfChanges(a, p[0], idx...))
+				fmt.Fprintf(b, "  Children=%v\n", ch)
+				fmt.Fprintf(b, "  IndicesOfChanges=%q\n", sc.IndicesOfChanges(a, p[0], idx...))
 				walk(ref.ID, p)
 			}
 		}
 		walk(d.Roots[a], nil)
 	}
-	return b.String()
 }
 
 func dumpString(fs *h.ForkSession) string {
@@ -340,7 +347,22 @@ func runC16(c Case, tier string) (res CaseResult) {
 			}
 		}
 		for k := 1; k < K; k++ {
-			fs, irs := t.run(nil)
+			var hook func(fs *h.ForkSession)
+			if k%2 == 1 {
+				// a read-only observer asks every query every few instructions while the transaction runs
+				every := 17 + k%29
+				hook = func(fs *h.ForkSession) {
+					n := 0
+					fs.Rec.OnStep = func(e *h.Event, scope *avm.ScopeContext) {
+						if n++; n%every == 0 {
+							var sink strings.Builder
+							serializeQueries(fs, &sink)
+							res.Count("mid_run_observations", 1)
+						}
+					}
+				}
+			}
+			fs, irs := t.run(hook)
 			res.Count("repetitions", 1)
 			if s := serializeRun(fs, irs); s != base {
 				d := firstDiff(base, s)
@@ -381,7 +403,26 @@ func runC16(c Case, tier string) (res CaseResult) {
 			b = &c16Tx{world: h.BaseWorld([][]byte{c14Last(h.CALL, addrCtxWrite, 100000, h.Shanghai)}), env: h.EnvSpec{Fork: h.Shanghai},
 				txs: []h.TxSpec{{Entry: h.ECall, From: h.Sender, To: h.ContractAddr(0), Input: payload, Gas: 3_000_000}}, desc: "CALL to the context-write precompile"}
 		}
-		if c.Seed%5 == 1 {
+		var sharedHost *h.SharedHost
+		if c.Seed%5 == 2 {
+			// A reads every field of the block context; B is built on the SAME host objects (block context with its big.Int
+			// pointers, chain configuration) the way a node serves a gas-less call against the same block
+			f := h.Pick(r, []h.Fork{h.London, h.Shanghai, h.Cancun})
+			pa := h.NewAsm()
+			for i := 0; i < 45; i++ {
+				pa.PushU(uint64(i)).Op(h.POP)
+			}
+			for i, op := range []byte{h.BASEFEE, h.NUMBER, h.DIFFICULTY, h.COINBASE, h.GASLIMIT, h.TIMESTAMP, h.CHAINID, h.GASPRICE} {
+				pa.Op(op).PushU(uint64(60 + i)).Op(h.SSTORE)
+			}
+			pa.Op(h.BASEFEE).PushU(0).Op(h.MSTORE).PushU(32).PushU(0).Op(h.RETURN)
+			sharedHost = h.NewSharedHost(f)
+			a = &c16Tx{world: h.BaseWorld([][]byte{pa.Bytes()}), env: h.EnvSpec{Fork: f}, txs: []h.TxSpec{{Entry: h.ECall, From: h.Sender, To: h.ContractAddr(0), Gas: 3_000_000}, {Entry: h.ECall, From: h.Sender, To: h.ContractAddr(0), Gas: 3_000_000}},
+				desc: fmt.Sprintf("reads of every block-context field on %s (host objects shared with B)", f), shared: sharedHost}
+			b.env = h.EnvSpec{Fork: f}
+			b.shared, b.noBaseFee = sharedHost, true
+			b.desc += " (gas-less call on the shared host objects)"
+		} else if c.Seed%5 == 1 {
 			// A probes every precompile address (standard and Artela) after a preamble, on fork fa; B is built and run
 			// on a fork whose precompile set differs, in the middle of A's preamble
 			pairs := [][2]h.Fork{{h.Istanbul, h.Shanghai}, {h.Shanghai, h.Istanbul}, {h.Homestead, h.Byzantium}, {h.Byzantium, h.Homestead}, {h.Berlin, h.Petersburg}, {h.Cancun, h.Frontier}, {h.Petersburg, h.Cancun}}
@@ -452,6 +493,12 @@ func runC16(c Case, tier string) (res CaseResult) {
 		if s := serializeRun(fa3, ia3); s != aloneA {
 			d := firstDiff(aloneA, s)
 			res.Fail(Key("interference-after", diffRule(d)), "execution A gives a different answer after an unrelated execution B ran in the same process", desc, d)
+		}
+		if sharedHost != nil {
+			if d := sharedHost.Changed(); d != "" {
+				res.Fail(Key("shared-host-object-modified"), "the block context / chain configuration shared between two instances was modified by an EVM", desc, d)
+			}
+			res.Count("pairs_sharing_host_objects", 1)
 		}
 		res.Evals = 5
 		res.Shape(aloneA)
